@@ -71,12 +71,12 @@ func (r *fakeRNG) next() uint64 {
 	return r.n
 }
 
-func (r *fakeRNG) Float64() float64      { panic("fakeRNG.Float64") }
-func (r *fakeRNG) Int64N(n int64) int64  { panic("fakeRNG.Int64N") }
-func (r *fakeRNG) IntN(n int) int        { panic("fakeRNG.IntN") }
+func (r *fakeRNG) Float64() float64            { panic("fakeRNG.Float64") }
+func (r *fakeRNG) Int64N(n int64) int64        { panic("fakeRNG.Int64N") }
+func (r *fakeRNG) IntN(n int) int              { panic("fakeRNG.IntN") }
 func (r *fakeRNG) Shuffle(int, func(i, j int)) { panic("fakeRNG.Shuffle") }
-func (r *fakeRNG) Uint32() uint32        { return 1000 }
-func (r *fakeRNG) Uint64() uint64        { return 0xC100000000000000 | r.next() }
+func (r *fakeRNG) Uint32() uint32              { return 1000 }
+func (r *fakeRNG) Uint64() uint64              { return 0xC100000000000000 | r.next() }
 func (r *fakeRNG) Read(p []byte) (int, error) {
 	v := r.next()
 	for i := range p {
@@ -369,10 +369,10 @@ type fakeLeaf struct {
 	id     string
 	handle []byte
 
-	opens, closes                    [2]int
+	opens, closes                      [2]int
 	reads, writes, setattrs, truncates int
-	inflight                         int
-	size                             uint64
+	inflight                           int
+	size                               uint64
 }
 
 func (l *fakeLeaf) openLocked(m virtual.ShareMask) {
